@@ -512,7 +512,49 @@ def check(rec):
     return []
 
 
+def _probe_abandoned_nested_condition():
+    """F37: `timeout | (never & worker)` fires through the timeout; the nested condition is not
+    detached and later fails with worker's exception - which the process did handle."""
+    from .. import bind_repo
+    bind_repo()
+    from usim.py import Environment
+
+    class Boom(Exception):
+        pass
+
+    env = Environment()
+    log = []
+
+    def worker(env):
+        yield env.timeout(5)
+        raise Boom()
+
+    def main(env):
+        job = env.process(worker(env))
+        never = env.event()
+        yield env.timeout(1) | (never & job)
+        try:
+            yield job
+        except Boom:
+            log.append("handled")
+        yield env.timeout(10)
+        log.append("went on")
+
+    env.process(main(env))
+    try:
+        env.run()
+    except Boom:
+        return log == ["handled"]        # handled, and still the run died of it
+    return False
+
+
 def probe_finding(finding):
+    if finding["id"] == "F37":
+        return _probe_abandoned_nested_condition()
+    return _probe_late_waiter(finding)
+
+
+def _probe_late_waiter(finding):
     """F20: a process that starts waiting for an event in the time step in which the event
     failed (triggered, callbacks not yet run) and handles the exception does not save the run."""
     if finding["id"] != "F20":
